@@ -108,6 +108,28 @@ func c16IsResolverCall(v ssa.Value) (*ssa.Call, bool) {
 }
 
 func runC16(c *Ctx) {
+	c.Rule("C16.CTEGATE", "COND: in both converters extractCTENames runs unconditionally, or under a test for the bare word `with` — never under a test for the keyword followed by a literal space (WITH may be followed by a line break or a tab, and a missed CTE is rewritten to a storage path)")
+	for _, name := range []string{"convertSQLToStoragePaths", "convertSQLToStoragePathsWithHeaderDB"} {
+		fn := c.P.Func("(*internal/api.QueryHandler)." + name)
+		if fn == nil {
+			continue
+		}
+		for i, call := range findCalls(fn, false, "internal/api.extractCTENames") {
+			var spaced []string
+			for _, f := range factsAt(call.(ssa.Instruction)) {
+				if f.Kind != factTrue {
+					continue
+				}
+				if cl, ok := f.Val.(*ssa.Call); ok && (callName(cl) == "strings.Contains" || callName(cl) == "strings.HasPrefix") {
+					if sv, ok := constString(cl.Call.Args[1]); ok && strings.Contains(strings.ToLower(sv), "with") && sv != strings.TrimSpace(sv) {
+						spaced = append(spaced, fmt.Sprintf("%q", sv))
+					}
+				}
+			}
+			c.Check(len(spaced) == 0, "C16.CTEGATE", fmt.Sprintf("%s|cte-extraction-gate#%d", name, i+1), call.Pos(), "CTE names are extracted whenever the word WITH occurs", name+" extracts CTE names only when the text contains "+strings.Join(spaced, ", ")+": `WITH\\nx AS (…) SELECT … FROM x` is not recognised, `x` is rewritten to the storage path of a measurement called x, and the permission check — which always excludes CTE names — never sees that reference")
+		}
+	}
+	transformCacheKeyAll(c, "C16.KEYALL")
 	p := c.P
 	c.Rule("C16.KEY", "FLOW: the transform cache key in getTransformedSQL is built from the sql parameter itself (and the header) by concatenation only — no case folding or other normalisation — Get and Set use the same key, and the cached value is the conversion of that same sql/header")
 	c.Rule("C16.BYPASS", "DOM+FLOW: the `already transformed` shortcut (return the statement as it is because it names read_parquet) is taken only on a test of literal-masked, comment-stripped text")
@@ -834,4 +856,40 @@ func c16FieldName(f *ssa.Field) string {
 		return st.Field(f.Field).Name()
 	}
 	return ""
+}
+
+// transformCacheKeyAll: every access to the SQL-transform cache in internal/api made by a function that also has the
+// header database in hand uses a key that depends on that header (the same text under two headers is two statements).
+func transformCacheKeyAll(c *Ctx, rule string) {
+	c.Rule(rule, "FLOW: every Get/Set on the SQL-transform cache, in any function of internal/api that receives the header database, uses a key that depends on that header — a probe keyed by the bare text hands a header-bearing request the translation cached for the same text without header (permission-checked for one database, reading another)")
+	n := 0
+	for _, fn := range c.P.FuncsIn("internal/api") {
+		var hdr *ssa.Parameter
+		for _, q := range fn.Params {
+			if q.Name() == "headerDB" || q.Name() == "database" {
+				if q.Type().String() == "string" {
+					hdr = q
+				}
+			}
+		}
+		for _, call := range callsIn(fn, true) {
+			nm := callName(call)
+			if !strings.HasSuffix(nm, "SQLTransformCache).Get") && !strings.HasSuffix(nm, "SQLTransformCache).Set") {
+				continue
+			}
+			// the cache must be the handler's query cache
+			if sn, fld, _, ok := loadedField(call.Common().Args[0]); !ok || sn != "QueryHandler" || fld != "queryCache" {
+				continue
+			}
+			n++
+			if hdr == nil {
+				c.Triv(rule, fmt.Sprintf("%s|cache-access#%d", fn.Name(), n), call.Pos(), "function has no header database")
+				continue
+			}
+			key := call.Common().Args[1]
+			dep := derivesWide(key, func(v ssa.Value) bool { return resolveParam(v) == ssa.Value(hdr) }, 20)
+			c.Check(dep, rule, fmt.Sprintf("%s|cache-access#%d-keyed-by-header", fn.Name(), n), call.Pos(), "key depends on the header database", fn.Name()+" accesses the transform cache with a key that ignores the x-arc-database header it was given: a tenant-only caller sending the byte-identical text gets the translation cached for the header-less request and reads database `default`, although only its own database was permission-checked")
+		}
+	}
+	c.Check(n >= 2, rule, "internal/api|transform-cache-accesses", 0, fmt.Sprintf("%d accesses inspected", n), "fewer transform-cache accesses than confirmed by hand (2)")
 }
